@@ -75,7 +75,7 @@ def gen_case(g):
             kw["weights"] = [g.dy(a=2, k=12, nonzero=True) for _ in range(k)]
     if name == "zeros" and post == "sr":
         post = "sr_rejected"
-    c = {"kind": "init", "init": name, "shape": [m, n], "kw": kw, "seed": g.randint(0, 2 ** 31),
+    c = {"kind": "init", "init": name, "shape": [m, n], "kw": kw, "seed": g.choice([0, 0, 1, g.randint(0, 2 ** 31), g.randint(0, 2 ** 31)]),
          "scalar_type": g.choice(["float", "float", "np.float64", "np.float32"]),
          "seed_kind": g.choice(["int", "int", "gen"]), "post": post,
          "via": g.choice(["direct", "direct", "partial"])}
